@@ -44,6 +44,26 @@ ASSUMPTIONS = ['booleans (even/odd/start/end/first-x/last-x) are compared by '
                'law of C11']
 CASE_CPU_SECONDS = 120.0
 
+# batch index -> (attributes, start, size, orphan); index 0 is unbatched
+BATCHES = ((None, 0, 0, 0),
+           ('size=2 start=2', 2, 2, 0),
+           ('size=3 orphan=2', 1, 3, 2),
+           ('start=3', 3, 10, 0),
+           ('size=2 start=2 overlap=1 orphan=0', 2, 2, 0))
+
+
+def window(batch, n):
+    """0-based first/last displayed index (start+size law of C11)"""
+    if not batch or n == 0:
+        return 0, n - 1
+    _a, start, size, orphan = BATCHES[batch]
+    s = min(start, n)
+    e = s + size - 1
+    if e > n or n - e < orphan:
+        e = n
+    return s - 1, e - 1
+
+
 KINDS = ('obj', 'map', 'pair', 'str', 'int')
 CONTAINERS = ('list', 'tuple', 'iter', 'gen', 'lazy')
 FIXED = ('item', 'key', 'index', 'number', 'letter', 'Letter', 'roman',
@@ -124,10 +144,14 @@ def cases(tier):
     for kind in KINDS:
         for cont in CONTAINERS:
             for opts in option_sets(kind):
-                for batch in (0, 1):
+                for batch in range(len(BATCHES)):
                     for n in range(0, maxn + 1):
                         yield {'kind': kind, 'cont': cont, 'opts': opts,
                                'batch': batch, 'n': n}
+    for cont in CONTAINERS:
+        for na in range(0, 4):
+            for nb in range(0, 4):
+                yield {'nested': 1, 'cont': cont, 'na': na, 'nb': nb}
 
 
 def body_source(kind, opts, batch):
@@ -169,7 +193,7 @@ def template(kind, opts, batch):
         for o in opts:
             attrs.append({'prefix': 'prefix=p', 'sort': 'sort=x'}.get(o, o))
         if batch:
-            attrs.append('size=2 start=2')
+            attrs.append(BATCHES[batch][0])
         src = ('<<dtml-in seq %s>%s<dtml-else>EMPTY</dtml-in>>'
                '{<dtml-var x missing="-">,<dtml-var sequence-index '
                'missing="-">,<dtml-var p_index missing="-">,'
@@ -192,10 +216,7 @@ def expected(kind, opts, batch, xs):
         order.reverse()
     seq = [items[i] for i in order]
     sx = [xs[i] for i in order]
-    first, last = 0, n - 1
-    if batch:
-        first = min(2, n) - 1
-        last = min(first + 1, n - 1)
+    first, last = window(batch, n)
     has_x = kind in ('obj', 'map', 'pair')
     pushed = has_x and 'no_push_item' not in opts
     rows = []
@@ -267,6 +288,21 @@ def one(res, case, xs):
     except Exception as e:
         got = e
     exp = expected(kind, opts, batch, xs)
+    if got == exp and cont in ('list', 'tuple', 'lazy'):
+        # the same container rendered a second time: same elements, same
+        # order (a tag that consumed or reordered the caller's sequence
+        # shows up here)
+        try:
+            again = template(kind, opts, batch)(seq=seq)
+        except Exception as e:
+            again = e
+        if again != exp:
+            res.violate('second-render',
+                        'second-render:%s:%s%s' % (
+                            kind, '+'.join(opts) or 'plain',
+                            ':batch' if batch else ''),
+                        {'xs': xs, 'container': cont, 'got': repr(again),
+                         'expected': exp}, dict(case, xs=list(xs)))
     if got != exp:
         what = first_difference(got, exp, kind, opts, batch)
         res.violate('sequence-variables',
@@ -278,8 +314,58 @@ def one(res, case, xs):
     return got
 
 
+NESTED_SRC = ('<dtml-in a prefix=o>(<dtml-var sequence-index>'
+              '<dtml-var sequence-item>:<dtml-in b prefix=q>[<dtml-var '
+              'sequence-index><dtml-var sequence-item><dtml-var o_index>'
+              '<dtml-var o_item><dtml-var q_index><dtml-if sequence-start>S'
+              '</dtml-if><dtml-if o_start>s</dtml-if><dtml-if sequence-end>E'
+              '</dtml-if><dtml-if o_end>e</dtml-if>]<dtml-else>{<dtml-var '
+              'sequence-index><dtml-var o_item>}</dtml-in>:<dtml-var '
+              'sequence-index><dtml-var sequence-item><dtml-var q_index '
+              'missing="-"><dtml-if sequence-end>E</dtml-if>)<dtml-else>'
+              'NONE</dtml-in><dtml-var sequence-index missing="-">'
+              '<dtml-var o_index missing="-"><dtml-var q_item missing="-">')
+
+
+def run_nested(case):
+    """an inner loop shadows the outer loop's variables only until its end
+    tag; the prefixed outer variables stay readable inside it"""
+    from DocumentTemplate import HTML
+    res = Res(nontrivial=case['na'] >= 1 and case['nb'] >= 1)
+    t = _t.get('nested')
+    if t is None:
+        t = _t['nested'] = HTML(NESTED_SRC)
+    a = ['xyz'[i] for i in range(case['na'])]
+    b = [7 + j for j in range(case['nb'])]
+    rows = []
+    for i, av in enumerate(a):
+        inner = []
+        for j, bv in enumerate(b):
+            inner.append('[%d%d%d%s%d%s%s%s%s]' % (
+                j, bv, i, av, j, 'S' if j == 0 else '',
+                's' if i == 0 else '', 'E' if j == len(b) - 1 else '',
+                'e' if i == len(a) - 1 else ''))
+        if not b:
+            inner.append('{%d%s}' % (i, av))
+        rows.append('(%d%s:%s:%d%s-%s)' % (
+            i, av, ''.join(inner), i, av, 'E' if i == len(a) - 1 else ''))
+    exp = (''.join(rows) if a else 'NONE') + '---'
+    try:
+        got = t(a=container(case['cont'], a), b=b)
+    except Exception as e:
+        got = repr(e)
+    if got != exp:
+        res.violate('nested-loops', 'nested:%s' % (
+            'exception' if not got.endswith('---') or '(' not in got + '('
+            else 'value'), {'got': got, 'expected': exp}, case)
+    res.outcome = 'nested:%s' % case['cont']
+    return res
+
+
 def run(case):
     res = Res()
+    if 'nested' in case:
+        return run_nested(case)
     if 'xs' in case:
         one(res, case, case['xs'])
         res.nontrivial = True
